@@ -4,6 +4,9 @@ IMPL   : array::fn(args, ctx) for every SIMD context that builds here, next to a
          in the same binary (harness/h_c12_<ctx>.cpp); the harness appends MISMATCH when the two differ.
 MODEL  : lean/NmVerif/Simd/*.lean (packed loop + tail, enumerators) run on integer data by the driver.
 ORACLE : NumPy on the logical arrays (independent statement of what the scalar evaluator must give).
+
+Integer element types (int8 .. uint64): harness/h_c12i_<ctx>.cpp (ibinary / iouter / ireduce), model = the same evaluator
+functions at element type BitVec w (lean/NmVerif/Simd/IntLanes.lean; ibinary / iouter / ireduce / imatmul), oracle = NumPy wrap-around arithmetic in that dtype.
 """
 import numpy as np
 from runner import Case as _Case
@@ -57,6 +60,15 @@ RULE = ('per SIMD context (x86 SSE, x86 AVX, vector extension 128/256/512, SIMDe
         '(element-wise) or within a re-association tolerance derived from the operand magnitudes (reductions, matmul); special '
         'values (-0.0, NaN, inf, denormals) go through every unary op. The pure enumerators are diffed tuple by tuple against the '
         'Lean model for lanes 2,4,8,16. Structural and memory-unsafe cases are repeated under ASan+UBSan. '
+        'Integer element types: per context x {int8,uint8,int16,uint16,int32,uint32,int64,uint64} x {add, subtract, multiply where '
+        'simd_op_t::mul has a branch for the width}: same-shape binary (casting same_kind) on ALL pairs of ~20 boundary values of the '
+        'type (limits, limits+-1, unsigned values around the signed maximum, 2^(w/2)+-1, bit patterns) in packed and in tail positions, '
+        'every element count 1..4*lanes+1, every 2-d broadcast pattern, outer (dtype = the type) on counts 1..2*lanes+1 and 2-d/3-d '
+        'operands, add / multiply reduce over every axis, axis None, keepdims on/off with wrapping data, matmul (x86 SSE 16/32 bit, vector '
+        'extensions all widths) with inner extents around the lane count; each answered by the SIMD '
+        'evaluator (MISMATCH against the scalar evaluator in the same binary), the Lean model at BitVec w and NumPy in that dtype; inputs '
+        'on which the scalar functor itself is undefined behaviour (uint16 products beyond INT_MAX, signed 32/64-bit overflow) are '
+        'off-domain and judged against NumPy; in-domain inputs are repeated under ASan+UBSan. '
         'non-trivial = the packed path runs (element count / row length >= lanes)')
 EXHAUSTIVE = {'quick': False, 'thorough': False}
 ANCHORS = {
@@ -74,11 +86,40 @@ ANCHORS = {
     'NmVerif.Simd.simdReduceAxisK / reduceOutShape / normOutShape': 'eval_reduction: out_shape_ = keepdims ? out_shape : insert_index(out_shape,1,axis) (evaluator/ufunc.hpp:262-282)',
     'NmVerif.Simd.outerStep': 'eval_outer, body of the loop over outer_simd_enumerator (evaluator/ufunc.hpp:131-168)',
     'NmVerif.Simd.matmulInnerSize / matmulInner': 'index::matmul_simd_inner_size / matmul_simd_inner (index/matmul.hpp:39-105)',
+    'NmVerif.Simd.IOp.lane / packInt': 'simd_op_t<tag,T>::add / sub / mul for integral T, branch chosen by n_bit = 8*sizeof(T) only '
+        '(x86_sse.hpp:167-248, x86_avx.hpp:167-229, simde_avx512/simd_op.hpp:162-236, vector_extension.hpp:186-208) through '
+        'ufunc_simd_t<add_t|subtract_t|multiply_t,...>::eval (eval/simd/ufunc.hpp:343-389)',
+    'NmVerif.Simd.scalarOp / IntTy.encode / IntTy.decode': 'view::fun::add / subtract / multiply <T,T,T>::operator(): static_cast<T>(t op u) '
+        '(view/ufuncs/add.hpp, subtract.hpp:31-41, multiply.hpp); reduce / outer variant <none_t,none_t,T> returning T',
+    'NmVerif.Simd.IOp.identity': 'view.op.identity() / meta::has_identity_v in eval_reduction (evaluator/ufunc.hpp:182-217,252-259)',
     'NmVerif.Simd.scalarUnary / scalarBinary2d / scalarReduceAxis / scalarReduceAxisK / scalarOuter / scalarMatmul / scalarMatmulNDA': 'array::evaluator_t<view,none_t> (array/eval.hpp) on ufunc / broadcast / reduce / outer / matmul views = NumPy',
 }
 ASSUMPTIONS = [
     'intrinsic wrappers are lane-wise (Props.C12.LaneWise1/LaneWise2): op.eval on a register = the scalar functor on each lane; '
     'hypothesis of the theorems (never an axiom), validated on this CPU by the bitwise IMPL-simd vs IMPL-scalar comparison of every run',
+    'integer lanes (Simd.packInt = List.zipWith IOp.lane): for every context and element width w the instruction behind '
+    'simd_op_t<ctx,T>::add / sub / mul is ASSUMED to be the modular operation on every w-bit lane, whatever the signedness of T: '
+    'x86 SSE _mm_add_epi8/16/32/64, _mm_sub_epi8/16/32/64, _mm_mullo_epi16/32; x86 AVX _mm256_add_epi8/16/32/64, '
+    '_mm256_sub_epi8/16/32/64, _mm256_mullo_epi16/32; SIMDe AVX-512 simde_mm512_add_epi8/16/32/64, simde_mm512_sub_epi8/16/32/64, '
+    'simde_mm512_mullo_epi16/32/64; vector extension 128/256/512: x + y, x - y, x * y on T __attribute__((vector_size)) for all eight '
+    'types; and that loadu / storeu / set1 of those widths (_mm*_loadu_si*, _mm*_storeu_si*, _mm*_set1_epi8/16/32/64(x), element-wise '
+    'copies for the vector extension) carry the bit pattern of every value of the type. Each of these (context, op, type) facts is '
+    'exercised by every run on ALL pairs of the boundary values of the type (minimum, maximum, +-1 around them, unsigned values '
+    'around the signed maximum, 2^(w/2)+-1 whose products just overflow, 0x55../0xAA.. patterns) in packed positions and in the '
+    'scalar tail, for same-shape, broadcast (set1 of a boundary value) and outer forms, bit-exactly against the scalar evaluator, the '
+    'Lean model (BitVec w) and NumPy; everything above that level (wrap-around meaning for signed and unsigned, equality with the '
+    'scalar functor, exactness of reductions) is proved (intLane_eq_wrap, intWrap_spec, intScalarOp_eq_lane, *_int_eq_scalar)',
+    'scalar functor on integers (Simd.scalarOp): static_cast<T>(t op u) after integral promotion; where C++ leaves it undefined '
+    '(uint16 * uint16 beyond INT_MAX, signed 32/64-bit overflow: intScalarOp_u16_mul_undefined, intScalarOp_i32_add_undefined) the '
+    'reference of the property is itself undefined: those boundary pairs are still run (optimised builds only, tag scalar-ub, '
+    'off-domain) and judged against NumPy wrap-around (g++ -O1 wraps there); the in-domain classification (scalar_defined) is checked '
+    'by running every in-domain integer request under UBSan',
+    'SIMDe AVX-512 sanitizer build of the integer harness: -fno-sanitize=signed-integer-overflow, because SIMDe itself emulates the 512-bit '
+    'integer adds / subs / mullos with + - * on signed vector types (reports come from /usr/include/simde/x86/avx512/*.h, not from nmtools)',
+    'not provided by the library, not run: multiply on 8-bit (x86 SSE, x86 AVX, SIMDe) and 64-bit (x86 SSE, x86 AVX) element types '
+    '(simd_op_t::mul has no branch and returns void: the call does not compile; the harness answers unsupported), unary ufuncs on '
+    'integer element types (static_assert floating point in eval_unary), integer matmul in the x86 AVX and SIMDe contexts '
+    '(simd_op_t::fmadd only has _ps / _pd branches) and for widths without mul',
     'the output of the evaluators is the row-major ndarray_t the default resolver produces (observed on every case; modelled as such)',
     'size_t arithmetic does not wrap (element counts far below 2^64 in every case run)',
     'SIMDe AVX-512: hardshrink/softshrink/hardswish and double matmul do not compile against the installed SIMDe (missing '
@@ -99,7 +140,7 @@ PARTIAL = [
     'elementwise.special-values',
 ]
 MANIFEST = dict(
-    text='Proof: 40 Lean theorems over all element counts / row lengths / ranks and all lane counts > 0: closed form of the packed loop, every '
+    text='Proof: 61 Lean theorems over all element counts / row lengths / ranks and all lane counts > 0: closed form of the packed loop, every '
          'packed access inside its buffer, packed chunks + tail partition [0,n); SIMD unary / same-shape binary = scalar evaluator for '
          'operands of either layout (column-major operands take the scalar path); 2-d broadcasting binary: every output cell written '
          'exactly once, operand offsets = NumPy broadcasting (incl. (1,1) operands), offsets in bounds, evaluator = NumPy broadcasting; '
@@ -111,14 +152,24 @@ MANIFEST = dict(
          'evaluator = scalar outer product for operands of any rank and either layout; matmul: inner steps read each lhs row / rhs column '
          'once, evaluator = explicit lane-strided fma association (no law) = sum of the K products in exact arithmetic, operator() with an '
          'effective lhs-layout test = n-d reference, counterexample for the dead test of the unchanged tree. '
+         'Integer element types (int8 .. uint64): lanes are bit vectors, the packed add / sub / mullo is the modular lane operation '
+         '(the one assumption), and it is PROVED that read as intN_t or uintN_t the lane result is the exact result wrapped into the '
+         'type (NumPy arithmetic; wrap = the unique representable value congruent mod 2^w), that the scalar functor static_cast<T>(t op u) '
+         'with integral promotion is the same function wherever C++ defines it (defined for all operands of 8/16-bit add/sub, 8-bit and '
+         'int16 multiply, unsigned 32/64-bit; counterexamples uint16*uint16 and int32 overflow), hence SIMD = scalar evaluator for integer '
+         'binary / broadcast / outer with no lane-wise hypothesis left, and integer add / multiply reductions over any axis are EXACT '
+         '(modular + and * are commutative monoids), integer matmul (fmadd = mullo + add) is exactly the modular sum of products; saturating instructions are shown not to be lane-wise. '
          'Intrinsic wrappers are an explicit lane-wise hypothesis. Tied to the C++ by a differential run of array::fn(args, ctx) for six '
-         'SIMD contexts x float/double against array::fn(args) in the same binary, the Lean model and NumPy, plus the pure enumerators '
+         'SIMD contexts x float/double and x eight integer types (boundary values of every type) against array::fn(args) in the same binary, the Lean model and NumPy, plus the pure enumerators '
          'tuple by tuple and an ASan run.',
     note='Lean kernel + propext/Classical.choice/Quot.sound; model hand-written, fidelity rests on the correspondence run; lane-wise '
          'behaviour of the intrinsics is a hypothesis measured bitwise on this CPU only; matmul = sum of products holds in exact '
          'arithmetic only (fmadd rounding outside the model); five defects found by this check were repaired in the source '
          '(fixes/C12-*.diff); two known findings stay open (NaN/-0.0 in min/max-built activations; SIMD matmul ignores a column-major '
-         'lhs, repair in fixes/C12-matmul-lhs-layout-fallback.diff).',
+         'lhs, repair in fixes/C12-matmul-lhs-layout-fallback.diff); open: the register type of the vector-extension contexts is 8/sizeof(T) '
+         'times too wide and its extra lanes are never initialised (UBSan aborts on int8/16/32; values unaffected), repair in '
+         'fixes/C12-vector-extension-width.diff; open: vector-extension lanes compute int8/int16 in the narrow signed type (wrap = signed '
+         'overflow, UB in the SIMD path only; values agree), repair in fixes/C12-vector-extension-signed-lanes.diff.',
     technique='Lean 4 induction proofs over element counts / lane counts + hardware differential (SIMD vs scalar evaluator, ASan)')
 
 
@@ -130,6 +181,16 @@ def hname(ctx, san=False):
     return 'h_c12_%s%s' % (ctx, '_san' if san else '')
 
 
+# without AVX-512 hardware flags SIMDe emulates _mm512_add_epi16 & co. by `+` on its own SIGNED vector types
+# (/usr/include/simde/x86/avx512/add.h:350 "signed integer overflow: 255 + 32766 cannot be represented in type 'short int'"):
+# third-party code, not nmtools; the rest of UBSan and ASan stay on for that build
+INT_SAN_EXTRA = {'simde512': ['-fno-sanitize=signed-integer-overflow']}
+
+
+def ihname(ctx, san=False):
+    return 'h_c12i_%s%s' % (ctx, '_san' if san else '')
+
+
 def harness_specs(tier):
     specs = []
     fb = ['-DC12_MATMUL_LHS_FALLBACK'] if MATMUL_LHS_FALLBACK_REPAIRED else []
@@ -138,6 +199,11 @@ def harness_specs(tier):
     for c in SAN_CTXS[tier]:
         specs.append(dict(name=hname(c, True), src=CTXS[c]['src'], flavour='san', extra=CTXS[c]['extra'] + fb))
     specs.append(dict(name='h_c12_enum', src='h_c12_enum.cpp', flavour='fast'))
+    # integer element types: one TU per context (h_c12i_<ctx>.cpp), same flags; sanitizer builds as for the float TUs
+    for c, d in CTXS.items():
+        specs.append(dict(name=ihname(c), src='h_c12i_%s.cpp' % c, flavour='fast', extra=d['extra']))
+    for c in SAN_CTXS[tier]:
+        specs.append(dict(name=ihname(c, True), src='h_c12i_%s.cpp' % c, flavour='san', extra=CTXS[c]['extra'] + INT_SAN_EXTRA.get(c, [])))
     return specs
 
 
@@ -547,6 +613,323 @@ def gen_enum(tier, rng):
                                tags=['enum', 'enum_matmul', 'lanes=%d' % L])
 
 
+
+# ------------------------------------------------------------------------------------------------
+# integer element types (harness/h_c12i_<ctx>.cpp, model Simd/IntLanes.lean)
+# ------------------------------------------------------------------------------------------------
+
+IDTYPES = {'i8': (np.int8, 8, True), 'u8': (np.uint8, 8, False), 'i16': (np.int16, 16, True), 'u16': (np.uint16, 16, False),
+           'i32': (np.int32, 32, True), 'u32': (np.uint32, 32, False), 'i64': (np.int64, 64, True), 'u64': (np.uint64, 64, False)}
+# element widths for which simd_op_t<ctx,T>::mul has NO branch (the function returns void: multiply does not compile);
+# add / sub have a branch for every width in every context; the vector-extension contexts use x*y for every width
+INT_NO_MUL = {'sse': {8, 64}, 'avx': {8, 64}, 'simde512': {8}, 'v128': set(), 'v256': set(), 'v512': set()}
+IOPS = ['add', 'subtract', 'multiply']
+IOP_PY = {'add': lambda x, y: x + y, 'subtract': lambda x, y: x - y, 'multiply': lambda x, y: x * y}
+IOP_NP = {'add': np.add, 'subtract': np.subtract, 'multiply': np.multiply}
+
+
+def ilanes(ctx, dt):
+    return CTXS[ctx]['bits'] // IDTYPES[dt][1]
+
+
+def int_ops(ctx, dt):
+    return [o for o in IOPS if not (o == 'multiply' and IDTYPES[dt][1] in INT_NO_MUL[ctx])]
+
+
+def irange(dt):
+    _, w, sg = IDTYPES[dt]
+    return (-(1 << (w - 1)), (1 << (w - 1)) - 1) if sg else (0, (1 << w) - 1)
+
+
+def iwrap(dt, z):
+    """NumPy arithmetic in dtype dt: the exact result reduced modulo 2^w into the range of the type (IntTy.wrap)"""
+    _, w, sg = IDTYPES[dt]
+    z %= (1 << w)
+    return z - (1 << w) if (sg and z >= (1 << (w - 1))) else z
+
+
+def scalar_defined(dt, op, x, y):
+    """is `static_cast<T>(x op y)` free of undefined behaviour?  (Simd.scalarOp != none): operands narrower than int are
+    promoted to int (signed 32 bit), signed overflow of the promoted type is UB, unsigned arithmetic wraps"""
+    _, w, sg = IDTYPES[dt]
+    z = IOP_PY[op](x, y)
+    if w < 32:
+        return -(1 << 31) <= z < (1 << 31)
+    if sg:
+        return -(1 << (w - 1)) <= z < (1 << (w - 1))
+    return True
+
+
+def iboundary(dt):
+    """values at and around the limits of the type, of its signed half (unsigned values above the signed maximum),
+    around 2^(w/2) (products that just overflow) and two bit patterns"""
+    _, w, sg = IDTYPES[dt]
+    lo, hi = irange(dt)
+    h = 1 << (w // 2)
+    p5 = int('55' * (w // 8), 16)
+    if sg:
+        vals = [lo, lo + 1, lo // 2 - 1, lo // 2, -h - 1, -h, -h + 1, -3, -2, -1, 0, 1, 2, 3, h - 1, h, h + 1,
+                hi // 2, hi // 2 + 1, hi - 1, hi, p5, -p5 - 1]
+    else:
+        sm = hi >> 1
+        vals = [0, 1, 2, 3, h - 1, h, h + 1, sm - 1, sm, sm + 1, sm + 2, sm + h, hi - h, hi - 2, hi - 1, hi, p5, hi - p5]
+    out = []
+    for v in vals:
+        if lo <= v <= hi and v not in out:
+            out.append(v)
+    return out
+
+
+_PAIRS = {}
+
+
+def ipairs(dt, op):
+    """(pairs on which the scalar functor is defined, pairs on which it is undefined behaviour) over iboundary x iboundary"""
+    k = (dt, op)
+    if k not in _PAIRS:
+        b = iboundary(dt)
+        allp = [(x, y) for x in b for y in b]
+        _PAIRS[k] = ([q for q in allp if scalar_defined(dt, op, *q)], [q for q in allp if not scalar_defined(dt, op, *q)])
+    return _PAIRS[k]
+
+
+def isafe_pools(dt, op):
+    """(lhs pool, rhs pool) of boundary values such that EVERY lhs x rhs combination is defined for the scalar functor
+    (broadcast and outer forms pair every lhs element with several rhs elements)"""
+    _, w, sg = IDTYPES[dt]
+    b = iboundary(dt)
+    lo, hi = irange(dt)
+    if w >= 32 and sg:
+        if op == 'multiply':
+            q = 1 << (w // 2 - 1)
+            pool = [-q, -q + 1, -7, -3, -1, 0, 1, 2, 3, 5, q - 1, q]
+        else:
+            pool = [lo // 2, lo // 2 + 1, -(1 << (w // 2)), -2, -1, 0, 1, 3, 1 << (w // 2), hi // 2 - 1, hi // 2]
+        return pool, pool
+    if dt == 'u16' and op == 'multiply':
+        return b, [v for v in b if v < 32768]
+    return b, b
+
+
+def ifmt(vals):
+    return ','.join(str(int(v)) for v in vals)
+
+
+def inp(dt, data, shape):
+    return np.array([int(v) for v in data], dtype=IDTYPES[dt][0]).reshape(shape)
+
+
+def ians(shape, z):
+    z = np.asarray(z)
+    return 'ok shape=%s val=%s' % (shape if isinstance(shape, str) else fmt(list(shape)), ifmt(z.ravel().tolist()) if z.size else '[]')
+
+
+def ibinary_case(ctx, dt, op, ls, rs, ld, rd, tags, h=None):
+    L = ilanes(ctx, dt)
+    x, y = inp(dt, ld, ls), inp(dt, rd, rs)
+    with np.errstate(all='ignore'):
+        z = IOP_NP[op](x, y)
+    assert z.dtype == IDTYPES[dt][0]
+    # every pair the evaluation forms must be defined for the scalar functor, else the scalar side is UB (off-domain)
+    xb, yb = np.broadcast_arrays(x, y)
+    dom = all(scalar_defined(dt, op, int(p), int(q)) for p, q in zip(xb.ravel().tolist(), yb.ravel().tolist()))
+    req = 'ibinary dtype=%s op=%s lanes=%d lshape=%s rshape=%s ldata=%s rdata=%s' % (dt, op, L, fmt(ls), fmt(rs), ifmt(ld), ifmt(rd))
+    return Case(req, h or ihname(ctx), dom=dom, oracle=ians(z.shape, z), nontrivial=(z.shape[-1] >= L if ls != rs else z.size >= L),
+                tags=['int', 'ibinary', 'ctx=' + ctx, dt, 'op=' + op] + tags + ([] if dom else ['scalar-ub']))
+
+
+def take_cyc(pool, start, n):
+    return [pool[(start + k) % len(pool)] for k in range(n)]
+
+
+def gen_int_binary(ctx, tier, rng):
+    for dt in IDTYPES:
+        L = ilanes(ctx, dt)
+        ops = int_ops(ctx, dt)
+        for op in IOPS:
+            if op not in ops:
+                req = 'ibinary dtype=%s op=%s lanes=%d lshape=1 rshape=1 ldata=1 rdata=1' % (dt, op, L)
+                yield Case(req, ihname(ctx), dom=False, oracle='unsupported', model=False, nontrivial=False,
+                           tags=['int', 'ibinary', 'ctx=' + ctx, dt, 'op=' + op, 'unsupported'])
+        # (a) every boundary pair of the type in packed AND in tail positions: all pairs, padded to full registers, + 1
+        for op in ops:
+            good, ub = ipairs(dt, op)
+            for pool, tg in ((good, 'boundary'), (ub, 'boundary-ub')):
+                if not pool:
+                    continue
+                n = ((len(pool) + L - 1) // L) * L + 1
+                # the tail element repeats an early pair; a second request rotated by one register puts the last pairs first
+                for rot in (0, L // 2 + 1):
+                    ps = take_cyc(pool, rot, n)
+                    yield ibinary_case(ctx, dt, op, [n], [n], [p[0] for p in ps], [p[1] for p in ps], ['same-shape', tg])
+        # (b) every element count 1..4*lanes+1 (same shape), defined boundary pairs
+        off = 0
+        for n in range(1, 4 * L + 2):
+            op = ops[n % len(ops)]
+            good, _ = ipairs(dt, op)
+            ps = take_cyc(good, off, n); off += n + 7
+            yield ibinary_case(ctx, dt, op, [n], [n], [p[0] for p in ps], [p[1] for p in ps], ['same-shape', 'count'])
+        # (c) 2-d broadcasting, every pattern
+        Cs = sorted(set([1, 2, L - 1, L, L + 1, 2 * L + 1] if tier == 'quick' else
+                        list(range(1, min(2 * L + 1, 34) + 1)) + [L - 1, L, L + 1, 2 * L - 1, 2 * L, 2 * L + 1, 4 * L + 1]))
+        Cs = [c for c in Cs if c >= 1]
+        Rs = [1, 3] if tier == 'quick' else [1, 2, 3, 5]
+        k = 0
+        for R in Rs:
+            for C in Cs:
+                for ls, rs in bcast_patterns(R, C):
+                    if ls == rs:
+                        continue
+                    k += 1
+                    op = ops[k % len(ops)]
+                    lp, rp = isafe_pools(dt, op)
+                    ld = take_cyc(lp, k * 3, prod(ls)); rd = take_cyc(rp, k * 5 + 1, prod(rs))
+                    yield ibinary_case(ctx, dt, op, ls, rs, ld, rd, ['bcast2d'])
+
+
+def gen_int_outer(ctx, tier, rng):
+    for dt in IDTYPES:
+        L = ilanes(ctx, dt)
+        ops = int_ops(ctx, dt)
+        pairs = [([m], [n]) for m in (1, 3) for n in range(1, (2 if tier == 'quick' else 4) * L + 2)]
+        lasts = [c for c in (1, L - 1, L, L + 1, 2 * L + 1) if c >= 1]
+        pairs += [([2, 2], [c]) for c in lasts] + [([2], [2, c]) for c in lasts] + [([2, 1, 2], [2, 1, c]) for c in lasts[1:4]]
+        for op in IOPS:
+            if op not in ops:
+                req = 'iouter dtype=%s op=%s lanes=%d lshape=1 rshape=1 ldata=1 rdata=1' % (dt, op, L)
+                yield Case(req, ihname(ctx), dom=False, oracle='unsupported', model=False, nontrivial=False,
+                           tags=['int', 'iouter', 'ctx=' + ctx, dt, 'op=' + op, 'unsupported'])
+        # every safe boundary value on both sides: lhs broadcast by set1, rhs packed
+        for op in ops:
+            lp, rp = isafe_pools(dt, op)
+            pairs_b = [([len(lp)], [((len(rp) + L - 1) // L) * L + 1])]
+            for ls, rs in pairs_b:
+                yield iouter_case(ctx, dt, op, ls, rs, lp, take_cyc(rp, 0, rs[0]), ['boundary'])
+        for k, (ls, rs) in enumerate(pairs):
+            op = ops[k % len(ops)]
+            lp, rp = isafe_pools(dt, op)
+            yield iouter_case(ctx, dt, op, ls, rs, take_cyc(lp, k * 3, prod(ls)), take_cyc(rp, k * 5 + 2, prod(rs)), ['count'])
+
+
+def iouter_case(ctx, dt, op, ls, rs, ld, rd, tags):
+    L = ilanes(ctx, dt)
+    x, y = inp(dt, ld, ls), inp(dt, rd, rs)
+    with np.errstate(all='ignore'):
+        z = IOP_NP[op].outer(x, y)
+    assert z.dtype == IDTYPES[dt][0]
+    dom = all(scalar_defined(dt, op, int(p), int(q)) for p in ld for q in rd)
+    req = 'iouter dtype=%s op=%s lanes=%d lshape=%s rshape=%s ldata=%s rdata=%s' % (dt, op, L, fmt(ls), fmt(rs), ifmt(ld), ifmt(rd))
+    return Case(req, ihname(ctx), dom=dom, oracle=ians(ls + rs, z), nontrivial=(rs[-1] >= L),
+                tags=['int', 'iouter', 'ctx=' + ctx, dt, 'op=' + op, 'dims=%d,%d' % (len(ls), len(rs))] + tags + ([] if dom else ['scalar-ub']))
+
+
+def ireduce_data(dt, op, n, rng):
+    """data whose reduction is defined for the scalar functor in EVERY association order (the SIMD evaluator folds lanes
+    first): modular types (everything narrower than int except u16 products, and unsigned 32/64) get values over the
+    whole range so the result wraps many times; signed 32/64 and u16 products stay inside the type"""
+    _, w, sg = IDTYPES[dt]
+    lo, hi = irange(dt)
+    b = iboundary(dt)
+    if op == 'add':
+        if w >= 32 and sg:
+            big = 1 << (w - 2)
+            d = [rng.randint(-1000, 1000) for _ in range(n)]
+            if n >= 2:
+                i, j = rng.sample(range(n), 2)
+                d[i], d[j] = big, -big + 3
+            return d
+        return [b[rng.randrange(len(b))] if rng.random() < 0.5 else rng.randint(lo, hi) for _ in range(n)]
+    # multiply
+    if (w >= 32 and sg) or dt == 'u16':
+        d = [1] * n
+        for _ in range(min(n, 7)):
+            d[rng.randrange(n)] = rng.choice([2, 3, -1] if sg else [2, 3])
+        return d
+    # odd factors keep the product non-zero modulo 2^w; a few even ones
+    d = [(rng.randint(lo, hi) | 1) for _ in range(n)]
+    for _ in range(min(n, 3)):
+        d[rng.randrange(n)] = rng.choice([2, 6, hi, lo if sg else hi - 1, -2 if sg else 4])
+    return [max(lo, min(hi, v)) for v in d]
+
+
+def ireduce_case(ctx, dt, op, shape, axis, keep, data, tags):
+    L = ilanes(ctx, dt)
+    x = inp(dt, data, shape)
+    with np.errstate(all='ignore'):
+        z = IOP_NP[op].reduce(x, axis=axis, keepdims=bool(keep), dtype=IDTYPES[dt][0])
+    oshape = 'num' if (axis is None and not keep) else fmt(list(np.shape(z)))
+    req = 'ireduce dtype=%s op=%s lanes=%d shape=%s axis=%s keepdims=%d data=%s' % (
+        dt, op, L, fmt(shape), 'None' if axis is None else str(axis), keep, ifmt(data))
+    return Case(req, ihname(ctx), dom=True, oracle=ians(oshape, z), nontrivial=(prod(shape) >= L),
+                tags=['int', 'ireduce', 'ctx=' + ctx, dt, 'op=' + op, 'axis=' + ('None' if axis is None else ('neg' if axis < 0 else 'k')),
+                      'keepdims=%d' % keep] + tags)
+
+
+def gen_int_reduce(ctx, tier, rng):
+    for dt in IDTYPES:
+        L = ilanes(ctx, dt)
+        ops = [o for o in int_ops(ctx, dt) if o != 'subtract']
+        if 'multiply' not in ops:
+            req = 'ireduce dtype=%s op=multiply lanes=%d shape=1 axis=0 keepdims=0 data=1' % (dt, L)
+            yield Case(req, ihname(ctx), dom=False, oracle='unsupported', model=False, nontrivial=False,
+                       tags=['int', 'ireduce', 'ctx=' + ctx, dt, 'op=multiply', 'unsupported'])
+        k = 0
+        for n in range(1, 4 * L + 2):
+            k += 1
+            op = ops[k % len(ops)]
+            axis = None if k % 3 else 0
+            yield ireduce_case(ctx, dt, op, [n], axis, (k // 2) % 2, ireduce_data(dt, op, n, rng), ['count'])
+        Cs = [c for c in (1, L - 1, L, L + 1, 2 * L + 1) if c >= 1]
+        shapes = [[r, c] for r in ((2, 3) if tier == 'quick' else (1, 2, 3, 5)) for c in Cs] + [[2, 3, L + 1], [2, L, 3], [L + 1, 2, 2]]
+        for shape in shapes:
+            dim = len(shape)
+            for axis in list(range(dim)) + [None, -1]:
+                k += 1
+                op = ops[k % len(ops)]
+                yield ireduce_case(ctx, dt, op, shape, axis, k % 2, ireduce_data(dt, op, prod(shape), rng), ['nd'])
+
+
+INT_NO_MATMUL = {'avx', 'simde512'}       # simd_op_t::fmadd calls the _ps / _pd intrinsic for every element type
+
+
+def imatmul_data(dt, n, rng):
+    """values whose products and partial sums are defined in every association order: modular types (8 bit: int arithmetic
+    cannot overflow; unsigned 32/64) over the whole range, the others small enough that nothing leaves the promoted type while
+    16-bit results still wrap many times"""
+    _, w, sg = IDTYPES[dt]
+    lo, hi = irange(dt)
+    b = iboundary(dt)
+    if w == 8 or (w >= 32 and not sg):
+        return [b[rng.randrange(len(b))] if rng.random() < 0.4 else rng.randint(lo, hi) for _ in range(n)]
+    m = (1 << 12) if w == 16 else (1 << (w // 2 - 4))
+    return [rng.randint(-m if sg else 0, m) for _ in range(n)]
+
+
+def gen_int_matmul(ctx, tier, rng):
+    for dt in IDTYPES:
+        L = ilanes(ctx, dt)
+        w = IDTYPES[dt][1]
+        if ctx in INT_NO_MATMUL or w in INT_NO_MUL[ctx]:
+            req = 'imatmul dtype=%s op=matmul lanes=%d lshape=1,1 rshape=1,1 ldata=1 rdata=1' % (dt, L)
+            yield Case(req, ihname(ctx), dom=False, oracle='unsupported', model=False, nontrivial=False,
+                       tags=['int', 'imatmul', 'ctx=' + ctx, dt, 'unsupported'])
+            continue
+        Ks = sorted(set(k for k in (1, 2, L - 1, L, L + 1, 2 * L + 1, 3 * L) if k >= 1))
+        for M in (1, 2):
+            for Nn in (1, 3):
+                for K in Ks:
+                    ld = imatmul_data(dt, M * K, rng)
+                    rd = imatmul_data(dt, K * Nn, rng)
+                    x = inp(dt, ld, [M, K])
+                    y = np.array([int(v) for v in rd], dtype=IDTYPES[dt][0]).reshape([K, Nn], order='F')
+                    with np.errstate(all='ignore'):
+                        z = np.matmul(x, y)
+                    assert z.dtype == IDTYPES[dt][0]
+                    req = 'imatmul dtype=%s op=matmul lanes=%d lshape=%s rshape=%s ldata=%s rdata=%s' % (dt, L, fmt([M, K]), fmt([K, Nn]), ifmt(ld), ifmt(rd))
+                    yield Case(req, ihname(ctx), dom=True, oracle=ians([M, Nn], z), nontrivial=(K >= L),
+                               tags=['int', 'imatmul', 'ctx=' + ctx, dt])
+
+
 def memory_unsafe(c):
     """input classes on which the code leaves its buffers: only ever sent to a sanitizer build (a plain build would
     corrupt its heap and poison the answers to later requests).  None since the (1,1)-broadcast and negative-axis
@@ -568,6 +951,14 @@ def gen(tier, rng):
                     # the same request through the ASan+UBSan build
                     yield Case(c.req, hname(ctx, True), dom=c.dom, oracle=c.oracle, model=False, nontrivial=c.nontrivial,
                                tags=[t for t in c.tags if t != 'model'] + ['san'])
+        for g in (gen_int_binary, gen_int_outer, gen_int_reduce, gen_int_matmul):
+            for c in g(ctx, tier, rng):
+                yield c
+                if san and c.dom and c.model:
+                    # ASan + UBSan: no packed access outside a buffer, and no signed overflow in the scalar functor on the
+                    # inputs classified as defined (scalar_defined = Simd.scalarOp != none)
+                    yield Case(c.req, ihname(ctx, True), dom=c.dom, oracle=c.oracle, model=False, nontrivial=c.nontrivial,
+                               tags=list(c.tags) + ['san'])
 
 
 # ------------------------------------------------------------------------------------------------
@@ -649,6 +1040,41 @@ def pred_special_minmax(case):
     return 'nan' in d or '-0.0' in d
 
 
+VECEXT_SAN = ('h_c12i_v128_san', 'h_c12i_v256_san', 'h_c12i_v512_san')
+
+
+def pred_vecext_signed_lane_overflow(case):
+    """int8 / int16 through a vector-extension context in the sanitizer build, some lane result outside the element type:
+    the vector lane computes in T (signed overflow), the scalar functor in int (defined wrap-around)"""
+    if case.harness not in VECEXT_SAN:
+        return False
+    kind, a = _args(case)
+    dt = a.get('dtype')
+    if dt not in ('i8', 'i16') or kind not in ('ibinary', 'iouter', 'ireduce', 'imatmul'):
+        return False
+    if kind in ('ireduce', 'imatmul'):
+        return True          # lane partial sums / products of full-range data
+    lo, hi = irange(dt)
+    ld = np.array([int(v) for v in a['ldata'].split(',')], dtype=np.int64)
+    rd = np.array([int(v) for v in a['rdata'].split(',')], dtype=np.int64)
+    if kind == 'iouter':
+        z = IOP_NP[a['op']].outer(ld, rd)
+    else:
+        z = IOP_NP[a['op']](ld.reshape(_shape(a['lshape'])), rd.reshape(_shape(a['rshape'])))
+    return bool(((z < lo) | (z > hi)).any())
+
+
+def pred_vecext_uninit_lanes(case):
+    """signed integer element type narrower than 8 bytes through a vector-extension context in the sanitizer build, every
+    lane result of the INPUT inside the element type (otherwise: vecext_signed_lane_overflow): UBSan sees the arithmetic on
+    the never-initialised extra lanes of the over-wide register type"""
+    if case.harness not in VECEXT_SAN:
+        return False
+    kind, a = _args(case)
+    return (kind in ('ibinary', 'iouter', 'ireduce', 'imatmul') and a.get('dtype') in ('i8', 'i16', 'i32')
+            and not pred_vecext_signed_lane_overflow(case))
+
+
 REPAIRED_CLASSES = [('layout.column-major', pred_colmajor), ('binary.bcast-1x1', pred_bcast_1x1),
                     ('reduce.full-from-zero', pred_reduce_out1_nonadd), ('reduce.no-identity', pred_reduce_noidentity),
                     ('reduce.negative-axis', pred_reduce_negaxis)]
@@ -658,4 +1084,6 @@ REPAIRED_CLASSES = [('layout.column-major', pred_colmajor), ('binary.bcast-1x1',
 KNOWN_PREDICATES = {
     'special_values_minmax': pred_special_minmax,
     'matmul_col_lhs': pred_matmul_col_lhs,
+    'vecext_uninit_lanes': pred_vecext_uninit_lanes,
+    'vecext_signed_lane_overflow': pred_vecext_signed_lane_overflow,
 }
